@@ -15,7 +15,7 @@ import json
 import os
 import random
 import re
-import shutil
+import time
 
 import vcommon as V
 
@@ -23,10 +23,10 @@ ID = "C12"
 
 # constants of the TLC jobs per tier: (NRep, NElem, MaxUpd, MaxSnap)
 MC_BOUNDS = {
-    "quick": {"gcounter": (2, 1, 4, 1), "aworset": (2, 1, 4, 1), "lww": (2, 1, 4, 1)},
-    "thorough": {"gcounter": (3, 1, 4, 1), "aworset": (3, 1, 4, 1), "lww": (3, 1, 4, 1)},
+    "quick": {"gcounter": (2, 1, 3, 1), "aworset": (2, 1, 4, 1), "lww": (2, 1, 3, 1)},
+    "thorough": {"gcounter": (3, 1, 4, 1), "aworset": (3, 1, 4, 1), "lww": (2, 2, 4, 1)},
 }
-MC_EXTRA_THOROUGH = {"aworset": (2, 2, 4, 1), "lww": (2, 2, 4, 1)}
+MC_EXTRA_THOROUGH = {"aworset": (2, 2, 4, 1), "lww": (3, 1, 3, 1)}
 GEN_BOUNDS = {
     "quick": {"set": (2, 1, 3, 1), "gcounter": (2, 1, 3, 1)},
     "thorough": {"set": (2, 1, 4, 1), "gcounter": (2, 1, 4, 1)},
@@ -96,21 +96,52 @@ def covering_walks(init, out, maxlen, rng):
         p.reverse()
         return p
 
+    def nearest_uncovered(src, limit):
+        """shortest path (list of (state, edge index)) from src to a state that still has an untaken transition"""
+        if limit <= 0:
+            return None
+        prev = {src: None}
+        frontier = [src]
+        depth = 0
+        while frontier and depth < limit:
+            depth += 1
+            nxt = []
+            for a in frontier:
+                for j, (_, t) in enumerate(out[a]):
+                    if t in prev:
+                        continue
+                    prev[t] = (a, j)
+                    if len(covered[t]) < len(out[t]):
+                        p = []
+                        while prev[t] is not None:
+                            p.append(prev[t])
+                            t = prev[t][0]
+                        p.reverse()
+                        return p
+                    nxt.append(t)
+            frontier = nxt
+        return None
+
     for s in order:
         for i in range(len(out[s])):
             if i in covered[s]:
                 continue
             w = path_to(s) + [(s, i)]
+            covered[s].add(i)
             cur = out[s][i][1]
             while len(w) < maxlen:
-                cand = [j for j in range(len(out[cur])) if j not in covered[cur] and (cur, j) not in w]
-                if not cand:
+                cand = [j for j in range(len(out[cur])) if j not in covered[cur]]
+                if cand:
+                    j = rng.choice(cand)
+                    w.append((cur, j))
+                    covered[cur].add(j)
+                    cur = out[cur][j][1]
+                    continue
+                p = nearest_uncovered(cur, min(4, maxlen - len(w) - 1))
+                if not p:
                     break
-                j = rng.choice(cand)
-                w.append((cur, j))
-                cur = out[cur][j][1]
-            for (a, b) in w:
-                covered[a].add(b)
+                w += p
+                cur = out[p[-1][0]][p[-1][1]][1]
             walks.append([out[a][b][0] for (a, b) in w])
     return walks, total, len(order)
 
@@ -154,7 +185,9 @@ def run(chk):
     quick = chk.quick()
     tier = "quick" if quick else "thorough"
     rng = random.Random(chk.seed)
+    t0 = time.time()
     drv = V.build_driver("c12drv", chk.bindir)
+    chk.notes["phase_s"] = {"build": round(time.time() - t0, 1)}
 
     if chk.replay:
         rp = json.load(open(chk.replay))
@@ -167,7 +200,7 @@ def run(chk):
     def mc_job(name, impl, cfg, bounds, timeout):
         d = subdir(work, "mc-" + name)
         set_consts(os.path.join(d, cfg), *bounds, amts="1, 2" if impl == "gcounter" else None)
-        return V.tlc(d, "MCCRDT", cfg=cfg, workers=4 if quick else 8, timeout=timeout, deadlock=False)
+        return V.tlc(d, "MCCRDT", cfg=cfg, workers=6 if quick else 8, timeout=timeout, deadlock=False)
 
     def gen_job(kind, cfg, bounds, timeout):
         d = subdir(work, "gen-" + kind)
@@ -184,29 +217,35 @@ def run(chk):
                     simulate="num=%d" % num, depth=simlen + 2, seed=chk.seed)
         return res, os.path.join(d, "sim.ndjson")
 
-    nsim = 40 if quick else 600
+    nsim = 30 if quick else 600
     simlen = 16 if quick else 24
     tmo = 900 if quick else 2400
-    with concurrent.futures.ThreadPoolExecutor(max_workers=5 if quick else 4) as ex:
-        for impl in ("aworset", "lww", "gcounter"):
-            jobs["mc-" + impl] = ex.submit(mc_job, impl, impl, "MC%s.cfg" % impl, MC_BOUNDS[tier][impl], tmo)
-        jobs["pin-aworset"] = ex.submit(mc_job, "pin-aworset", "aworset-pinned", "MCPinnedAW.cfg", (2, 1, 4, 1), tmo)
-        jobs["pin-lww"] = ex.submit(mc_job, "pin-lww", "lww-pinned", "MCPinnedLWW.cfg", (2, 1, 4, 1), tmo)
-        jobs["gen-set"] = ex.submit(gen_job, "set", "GenSet.cfg", GEN_BOUNDS[tier]["set"], tmo)
-        jobs["gen-gcounter"] = ex.submit(gen_job, "gcounter", "GenCounter.cfg", GEN_BOUNDS[tier]["gcounter"], tmo)
-        jobs["sim-set"] = ex.submit(sim_job, "set", "SimSet.cfg", nsim, simlen, tmo)
-        jobs["sim-gcounter"] = ex.submit(sim_job, "gcounter", "SimCounter.cfg", nsim, simlen, tmo)
-        if not quick:
-            for impl, b in MC_EXTRA_THOROUGH.items():
-                jobs["mc2-" + impl] = ex.submit(mc_job, impl + "-2", impl, "MC%s.cfg" % impl, b, tmo)
-    design_ok = True
-    for name in sorted(jobs):
-        if name.startswith("mc"):
-            res = jobs[name].result()
-            chk.add_tlc("%s: M implies P, exhaustive (ReadAgree StateFn Commutative Idempotent Associative "
-                        "MergeReads Inflation Monotone)" % name, res)
-            design_ok = design_ok and res.ok
-    chk.exhaustive = design_ok
+    t0 = time.time()
+    ex = concurrent.futures.ThreadPoolExecutor(max_workers=6 if quick else 5)
+    # generators first (the replay waits for them); the design-level jobs keep running during replay and folding
+    jobs["gen-set"] = ex.submit(gen_job, "set", "GenSet.cfg", GEN_BOUNDS[tier]["set"], tmo)
+    jobs["gen-gcounter"] = ex.submit(gen_job, "gcounter", "GenCounter.cfg", GEN_BOUNDS[tier]["gcounter"], tmo)
+    jobs["pin-aworset"] = ex.submit(mc_job, "pin-aworset", "aworset-pinned", "MCPinnedAW.cfg", (2, 1, 4, 1), tmo)
+    jobs["pin-lww"] = ex.submit(mc_job, "pin-lww", "lww-pinned", "MCPinnedLWW.cfg", (2, 1, 4, 1), tmo)
+    jobs["sim-set"] = ex.submit(sim_job, "set", "SimSet.cfg", nsim, simlen, tmo)
+    jobs["sim-gcounter"] = ex.submit(sim_job, "gcounter", "SimCounter.cfg", nsim, simlen, tmo)
+    for impl in ("aworset", "lww", "gcounter"):
+        jobs["mc-" + impl] = ex.submit(mc_job, impl, impl, "MC%s.cfg" % impl, MC_BOUNDS[tier][impl], tmo)
+    if not quick:
+        for impl, b in MC_EXTRA_THOROUGH.items():
+            jobs["mc2-" + impl] = ex.submit(mc_job, impl + "-2", impl, "MC%s.cfg" % impl, b, tmo)
+
+    def collect_design():
+        design_ok = True
+        for name in sorted(jobs):
+            if name.startswith("mc"):
+                res = jobs[name].result()
+                chk.add_tlc("%s: M implies P, exhaustive (ReadAgree StateFn Commutative Idempotent Associative "
+                            "MergeReads Inflation Monotone)" % name, res)
+                design_ok = design_ok and res.ok
+        chk.exhaustive = design_ok
+        ex.shutdown()
+
     # the transcriptions of the PINNED tree must be rejected by the same invariants (vacuity check of
     # the design level); their counterexamples become directed cases for the real code
     directed = []
@@ -237,7 +276,7 @@ def run(chk):
     cases = []
     gen_notes = {}
     maxlen = 14 if quick else 22
-    cap = 110 if quick else None  # quick: seeded sample of the covering walks; thorough: all of them
+    cap = 60 if quick else None  # quick: seeded sample of the covering walks; thorough: all of them
     for kind, targets in (("set", ("aworset", "lww")), ("gcounter", ("gcounter",))):
         res, epath = jobs["gen-" + kind].result()
         chk.add_tlc("gen-%s: complete history graph of CRDTTypes (AuthorPrefix, PrefixObserved), transitions exported" % kind, res)
@@ -265,23 +304,27 @@ def run(chk):
             for t in targets:
                 cases.append({"kind": t, "nrep": 3, "nelem": 2 if kind == "set" else 0, "nslot": 2, "steps": h, "src": "sim"})
     cases = directed + cases
+    chk.notes["phase_s"]["tlc_design_and_generators"] = round(time.time() - t0, 1)
     for i, c in enumerate(cases):
         c["case"] = "%s-%s-%d" % (c.pop("src"), c["kind"], i)
         c["uni"] = (chk.seed + i) % 6
-        c["probes"] = 4 if quick else 5
-        c["trip"] = 3 if quick else 6
-    return judge(chk, work, drv, cases, gen_notes, quick)
+        c["probes"] = 3 if quick else 5
+        c["trip"] = 2 if quick else 6
+    return judge(chk, work, drv, cases, gen_notes, quick, collect_design)
 
 
-def judge(chk, work, drv, cases, gen_notes, quick):
+def judge(chk, work, drv, cases, gen_notes, quick, collect_design=None):
     cpath = os.path.join(chk.tmp, "cases.ndjson")
     with open(cpath, "w") as f:
         for c in cases:
             f.write(json.dumps(c) + "\n")
     tpath = os.path.join(chk.tmp, "trace.ndjson")
+    t0 = time.time()
     rc, o = V.run([drv, "-cases", cpath, "-out", tpath, "-seed", str(chk.seed)], timeout=1800)
     if rc != 0:
         raise V.Inconclusive("c12drv failed rc=%s: %s" % (rc, o[-2000:]))
+    chk.notes["phase_s"]["driver"] = round(time.time() - t0, 1)
+    t0 = time.time()
     lines = V.read_jsonl(tpath)
     segs = V.split_cases(lines)
     if len(segs) != len(cases):
@@ -326,13 +369,28 @@ def judge(chk, work, drv, cases, gen_notes, quick):
         fimp = ex.submit(V.fold_traces, work, "CRDTImplTrace", "CRDTImplTrace.cfg", mslim, 2400, "trace.ndjson",
                          max(2, chunks // 2), 4)
         obs, mt = fobs.result(), fimp.result()
+    chk.notes["phase_s"]["fold"] = round(time.time() - t0, 1)
+    if collect_design:
+        t0 = time.time()
+        collect_design()
+        chk.notes["phase_s"]["waiting_for_design_level_jobs"] = round(time.time() - t0, 1)
     # ---- P-level verdicts
     chk.states += obs["states"]
     chk.transitions += obs["transitions"]
     chk.traces += obs["accepted"]
     for e in obs["errors"]:
         chk.inconclusive.append("CRDTObs: " + e)
-    for r in obs["rejected"]:
+    # a value that breaks a law (StateFn) ends the folding of its case; fold such cases again with ReadOK
+    # alone to see whether the history also ends in an observably wrong Read()
+    lawseg = [r["seg"] for r in obs["rejected"] if r["kind"] == "invariant" and "StateFn" in r["text"]][:12]
+    rejected = list(obs["rejected"])
+    if lawseg:
+        ro = V.fold_traces(work, "CRDTObs", "CRDTObsRead.cfg", lawseg, 1200, "trace.ndjson", min(4, len(lawseg)), 4)
+        chk.states += ro["states"]
+        chk.transitions += ro["transitions"]
+        rejected += [r for r in ro["rejected"] if r["kind"] == "invariant"]
+    seen_keys = {}
+    for r in rejected:
         seg = by_case[r["seg"][0]["case"]]
         kind = seg[0]["kind"]
         if r["kind"] == "stuck":
@@ -342,13 +400,18 @@ def judge(chk, work, drv, cases, gen_notes, quick):
         inv = "StateFn" if "StateFn" in r["text"] else "ReadOK" if "ReadOK" in r["text"] else "rejected"
         ln = seg[r["line_in_seg"] - 1] if 0 < r["line_in_seg"] <= len(seg) else {}
         how = ln.get("law") or ln.get("f") or "?"
+        key = "C12:%s:%s:%s" % (kind, inv, how)
+        seen_keys[key] = seen_keys.get(key, 0) + 1
+        if seen_keys[key] > 1:
+            continue  # one replay per failing class; the count is in the evidence
         what = {"ReadOK": "Read() of the real %s is not the declared read of the updates it has received",
                 "StateFn": "two real %s values that have received the same updates differ in state or Read() "
                            "(merge not commutative/associative/idempotent, write not inflationary, or gob not the identity)",
                 "rejected": "real %s history rejected by CRDTObs"}[inv] % kind
-        chk.violation("C12:%s:%s:%s" % (kind, inv, how),
-                      "%s: value %s (%s) of case %s; %s" % (what, ln.get("v"), how, seg[0]["case"], r["text"]),
+        chk.violation(key, "%s: value %s (%s) of case %s; %s" % (what, ln.get("v"), how, seg[0]["case"], r["text"]),
                       replay_obj(seg, {"line_in_seg": r["line_in_seg"], "offending": ln, "tlc": r["text"]}))
+    if seen_keys:
+        chk.notes["rejected_cases_by_class"] = seen_keys
     # ---- M-level conformance (drift only)
     chk.states += mt["states"]
     chk.transitions += mt["transitions"]
